@@ -210,6 +210,16 @@ def run(V, universes, semantics=True):
             for s in sorted(files):
                 ans, ans_cf = r[j], r[j + 1]
                 j += 2
+                if case["universe"] == "cycles" and semantics and not isinstance(main, tuple):
+                    # the per-file report (what publishDiagnostics shows for the document) is the workspace report restricted to
+                    # the fixtures THIS file defines: never a cycle anchored on a same-named fixture of another file
+                    V.count()
+                    inf = norm(ans_cf)
+                    want_f = frozenset((p, fx) for p, fx in main if fx is not None and fx[0] == s)
+                    if inf != want_f:
+                        V.violation(dict(ex_base, file=s, reported_for_file=sorted(map(str, inf)) if not isinstance(inf, tuple) else inf,
+                                         workspace_report_restricted_to_file=sorted(map(str, want_f))),
+                                    "the circular-dependency report of a file is not the workspace's report restricted to the fixtures the file defines")
                 if case["universe"] != "scopes" or not semantics:
                     continue
                 V.count()
